@@ -8,6 +8,8 @@ Lemma ignored_entry_ops : forall a id name args threads out is_last,
   run_bench_entry a id name true args threads out is_last = [IgnoreLeaf name is_last].
 Proof. reflexivity. Qed.
 
+Ltac fin := cbn [prefix depth widths]; first [reflexivity | symmetry; assumption | assumption].
+
 (** ** Shape of a written row *)
 
 (** [row_shape cells s]: [s] is the cells in order, each followed by some
@@ -159,10 +161,6 @@ Proof. intros. unfold right_pad, tree_col_buf. cbn [fst]. eexists. split; [refle
 
 Lemma headings_len : length headings = 6. Proof. reflexivity. Qed.
 
-Lemma parent_row_ok : forall top, let row := if top then headings else six_empty in
-  row <> [] /\ length row = 6.
-Proof. intros []; cbn; split; congruence. Qed.
-
 (** [start_parent] below the top level. *)
 Lemma start_parent_inner : forall a p fl name l,
   inv a p -> depth p = S (length fl) -> prefix p = units_str fl ->
@@ -177,7 +175,7 @@ Proof.
   destruct (is_bench a) eqn:Ea.
   - destruct Hinv as [Hl Hpos].
     destruct (write_cols_shape six_empty (widths p)) as (s & ws' & E & Sh & L & Hp');
-      [cbn; congruence | rewrite Hl; cbn; lia |].
+      [compute; congruence | rewrite Hl; cbn; lia |].
     destruct (right_pad_spec (length (prefix p ++ branch_glyph l ++ name)) (max_name_span p)) as (k & Ek & Hk).
     destruct (right_pad _ _) as [pad span] eqn:Erp. cbn [fst] in Ek. subst pad.
     rewrite E. cbn [bind fst snd].
@@ -185,17 +183,17 @@ Proof.
     split; [|split; [|split; [|split]]].
     + rewrite Hp. f_equal. f_equal. rewrite <- !app_assoc. reflexivity.
     + cbn. eexists. split; [reflexivity|]. exists k, s. auto.
-    + cbn [widths]. rewrite Ea. split; [lia | auto].
-    + reflexivity.
-    + cbn [prefix]. rewrite Hp, units_str_app. cbn. destruct l; cbn; rewrite app_nil_r; reflexivity.
+    + cbn [widths]. split; [lia | auto].
+    + fin.
+    + cbn [prefix]. rewrite ?Hp, units_str_app. cbn. destruct l; cbn; rewrite ?app_nil_r; reflexivity.
   - cbn [bind fst snd].
     eexists. exists (units_str fl ++ branch_glyph l ++ name).
     split; [|split; [|split; [|split]]].
-    + rewrite Hp. f_equal. f_equal. rewrite !app_nil_r, <- !app_assoc. reflexivity.
+    + rewrite Hp. f_equal. f_equal. rewrite ?app_nil_r, <- ?app_assoc. reflexivity.
     + cbn. exists []. split; [rewrite app_nil_r; reflexivity|]. exists 0. split; [reflexivity | lia].
-    + cbn [widths]. rewrite Ea. exact Hinv.
-    + reflexivity.
-    + cbn [prefix]. rewrite Hp, units_str_app. cbn. destruct l; cbn; rewrite app_nil_r; reflexivity.
+    + cbn [widths]. exact Hinv.
+    + fin.
+    + cbn [prefix]. rewrite ?Hp, units_str_app. cbn. destruct l; cbn; rewrite ?app_nil_r; reflexivity.
 Qed.
 
 (** [start_parent] at the top level: no glyph, headings, prefix unchanged. *)
@@ -212,7 +210,7 @@ Proof.
   destruct (is_bench a) eqn:Ea.
   - destruct Hinv as [Hl Hpos].
     destruct (write_cols_shape headings (widths p)) as (s & ws' & E & Sh & L & Hp');
-      [cbn; congruence | rewrite Hl; cbn; lia |].
+      [compute; congruence | rewrite Hl; cbn; lia |].
     destruct (right_pad_spec (length (prefix p ++ [] ++ name)) (max_name_span p)) as (k & Ek & Hk).
     destruct (right_pad _ _) as [pad span] eqn:Erp. cbn [fst] in Ek. subst pad.
     rewrite E. cbn [bind fst snd].
@@ -220,17 +218,17 @@ Proof.
     split; [|split; [|split; [|split]]].
     + rewrite Hp. cbn [app]. f_equal. f_equal. rewrite <- !app_assoc. reflexivity.
     + cbn. eexists. split; [reflexivity|]. exists k, s. auto.
-    + cbn [widths]. rewrite Ea. split; [lia | auto].
-    + reflexivity.
-    + cbn [prefix]. exact Hp.
+    + cbn [widths]. split; [lia | auto].
+    + fin.
+    + cbn [prefix]. first [exact Hp | reflexivity].
   - cbn [bind fst snd].
     eexists. exists name.
     split; [|split; [|split; [|split]]].
     + rewrite Hp. cbn [app]. rewrite !app_nil_r. reflexivity.
     + cbn. exists []. split; [rewrite app_nil_r; reflexivity|]. exists 0. split; [reflexivity | lia].
-    + cbn [widths]. rewrite Ea. exact Hinv.
-    + reflexivity.
-    + cbn [prefix]. exact Hp.
+    + cbn [widths]. exact Hinv.
+    + fin.
+    + cbn [prefix]. first [exact Hp | reflexivity].
 Qed.
 
 Lemma firstn_units : forall fl b,
@@ -280,23 +278,23 @@ Proof.
   destruct (is_bench a) eqn:Ea.
   - destruct Hinv as [Hl Hpos].
     destruct (write_cols_shape (from_first s_ignored) (widths p)) as (s & ws' & E & Sh & L & Hp');
-      [cbn; congruence | rewrite Hl; cbn; lia |].
+      [compute; congruence | rewrite Hl; cbn; lia |].
     rewrite E. cbn [bind fst snd].
     eexists. exists (units_str fl ++ branch_glyph l ++ name ++ spaces k ++ s).
     split; [|split; [|split; [|split]]].
     + rewrite Hp. f_equal. f_equal. rewrite <- !app_assoc. reflexivity.
     + cbn. eexists. split; [reflexivity|]. exists k, s. auto.
-    + cbn [widths]. rewrite Ea. split; [lia | auto].
-    + reflexivity.
-    + reflexivity.
+    + cbn [widths]. split; [lia | auto].
+    + fin.
+    + fin.
   - cbn [bind fst snd].
     eexists. exists (units_str fl ++ branch_glyph l ++ name ++ spaces k ++ s_ignored).
     split; [|split; [|split; [|split]]].
     + rewrite Hp. f_equal. f_equal. rewrite <- !app_assoc. reflexivity.
     + cbn. eexists. split; [reflexivity|]. exists k, s_ignored. repeat split; auto. constructor.
-    + cbn [widths]. rewrite Ea. exact Hinv.
-    + reflexivity.
-    + reflexivity.
+    + cbn [widths]. exact Hinv.
+    + fin.
+    + fin.
 Qed.
 
 (** [start_leaf]: the beginning of a line; the padding is empty without
@@ -316,13 +314,13 @@ Proof.
     eexists. exists k. split; [|split; [exact Hk|split; [|split]]].
     + rewrite Hp. f_equal. f_equal. rewrite <- !app_assoc. reflexivity.
     + unfold inv in *. rewrite Ea in *. exact Hinv.
-    + reflexivity.
-    + reflexivity.
+    + fin.
+    + fin.
   - eexists. exists 0. split; [|split; [reflexivity|split; [|split]]].
-    + rewrite Hp. f_equal. f_equal. cbn. rewrite !app_nil_r, <- !app_assoc. reflexivity.
+    + rewrite Hp. f_equal. f_equal. cbn. rewrite ?app_nil_r, <- ?app_assoc. reflexivity.
     + unfold inv in *. rewrite Ea in *. exact Hinv.
-    + reflexivity.
-    + reflexivity.
+    + fin.
+    + fin.
 Qed.
 
 (** Continuation rows. *)
